@@ -140,6 +140,45 @@ CLAIMED = {
         note="Trusted: TLC, sha256 of outputs. Histories longer than the simulated ones are not explored. reim_to_tnx32_simple is "
              "keyed by dimension only but its kernels are stubs that abort: no in-domain call, recorded in the catalogue.",
         technique="TLA+ cache-key model checked exhaustively with TLC + replay of TLC-simulated call histories + TLC trace validation of hook events"),
+    "C03": dict(
+        category="model_checking",
+        text="TLC checks NttSchedule.tla - the butterfly schedule of the q120 NTT/iNTT over Z[w]/(w^n+1), n=1..32 - to be the "
+             "evaluation map at w^(1+2 bitrev j) (hence linear, convolution theorem) and the inverse to invert it. The schedule is "
+             "bound to the code by the real twiddle tables (every entry for small n, samples up to n=65536, forward and inverse: "
+             "exponent, order, shifted half), by impulse probes with arbitrary 64-bit lane content for every n=2..65536 and by "
+             "products of transforms against the negacyclic product computed by TLC (n<=16), all validated by TLC in residue "
+             "arithmetic; round trips and linearity on extremal lanes for every n and NTT120 vec_znx_dft->idft/_tmp_a on "
+             "INT64_MIN/MAX for all size/stride combinations are compared on all lanes by the harness and summarised.",
+        design_ref="DESIGN.md section 4 C03",
+        note="Trusted: TLC; lane residues computed by the harness with %; only the AVX2 NTT exists (no second implementation). "
+             "Full-lane comparisons of round trips are done by the harness (TLC receives the mismatch count).",
+        technique="TLA+ symbolic model of the NTT schedule checked with TLC + TLC trace validation of tables, impulse probes and convolutions"),
+    "C04": dict(
+        category="model_checking",
+        text="An exact envelope certificate written in TLA+ on bignum (Wide) integers is evaluated by TLC on the metadata read from "
+             "the freshly built tables (split points, claimed bit sizes, reduce flags, q*2^k offsets, reduction constants) for every "
+             "n=2..65536, forward and inverse, and on the constants of the a*a, b*b, b*c products (ref and AVX2 step lists) at "
+             "ell=10000: no sum reaches 2^64, every operand of a 32x32 multiply is below 2^32, every lazy subtraction offset is a "
+             "multiple of q and at least the subtrahend, every claimed bit size is sound. The guarded stage hook records the schedule "
+             "the drivers really execute on worst-case lanes; TLC checks it is legal (every level of every chunk once, in order) and "
+             "that observed per-prime maxima stay below the certificate. Worst-case operands through round trips and the six "
+             "product kernels (ell up to 10000) must be congruent to the exact value (TLC recomputes), ref and AVX2 agreeing.",
+        design_ref="DESIGN.md section 4 C04",
+        note="Trusted: TLC + Wide.tla. Default 30-bit primes only (29/31-bit sets need a rebuild; not explored). Beyond the first NTT "
+             "level the interval certificate is conservative: a failing certificate alone is reported as certificate_gap, a "
+             "VIOLATION needs a failing execution.",
+        technique="TLA+ exact interval certificate evaluated by TLC on the real tables' metadata + TLC trace validation of hooked stage events and worst-case executions"),
+    "C10": dict(
+        category="exploration",
+        text="Q120.tla defines the layouts, products, conversions and the centered CRT lift in residue arithmetic (constants of "
+             "q120_common.h checked as ASSUMEs). Recorded calls of the five product kinds x {ref, avx2} for ell in 0..10000 on "
+             "random, all-maximal, alternating, near-multiple and non-canonical operands, of all six conversions on extreme and "
+             "random int64 (lift probed at +-(Q-1)/2, +-(Q+1)/2, with unreduced lanes), and of the block extract/save maps "
+             "(injective probes, all blocks) are validated by TLC; int64->b->int128 is checked to be the identity.",
+        design_ref="DESIGN.md section 4 C10",
+        note="Trusted: TLC; lanes reduced modulo each prime by the harness (Python %). Operands are sampled (2^256 combinations); the "
+             "kernels have no data-dependent branch.",
+        technique="TLA+ definitions in residue arithmetic + TLC trace validation of recorded kernel calls"),
 }
 
 NOT_YET = "check not built yet in this session (planned, see DESIGN.md section 8)"
